@@ -338,7 +338,11 @@ def gen_ext(rng, schema, n, force_wrapdir=False):
             iname = ifs[(n + len(names["object"])) % len(ifs)]
             iface = schema.types[iname]
             mine = {f["name"] for f in ext["new_types"][-1]["fields"]}
-            if not (mine & {f.name for f in iface.fields}):
+            from py_gql.schema import NonNullType
+            # (the extension format carries no default values: an argument that is REQUIRED once its default is gone would make
+            #  the new type's field unusable by the coverage query — such interfaces are not implemented)
+            plain = all(not isinstance(a.type, NonNullType) for f in iface.fields for a in f.arguments)
+            if plain and not (mine & {f.name for f in iface.fields}):
                 ext["new_types"][-1]["fields"] += [
                     {"name": f.name, "ty": _ty_json(f.type), "args": [{"name": a.name, "ty": _ty_json(a.type)} for a in f.arguments]}
                     for f in iface.fields]
